@@ -564,14 +564,25 @@ func (e *SpecEnv) call(n *ast.CallExpr) (SV, error) {
 	// only meaningful where the code itself asserts that type (x.(*T) panics otherwise); references are shared.
 	if pe, ok := n.Fun.(*ast.ParenExpr); ok && len(n.Args) == 1 {
 		if st, ok := pe.X.(*ast.StarExpr); ok {
-			if id, ok := st.X.(*ast.Ident); ok && e.fn.Pkg != nil {
-				if obj := e.fn.Pkg.Pkg.Scope().Lookup(id.Name); obj != nil {
-					if _, ok := obj.(*types.TypeName); ok {
-						v, err := e.eval(n.Args[0])
-						if err != nil {
-							return SV{}, err
+			if id, ok := st.X.(*ast.Ident); ok {
+				// the type is looked up in the package of the function the clause belongs to, then (contracts of
+				// externs are written in the verified package's terms) in the package under verification
+				var scopes []*types.Scope
+				if e.fn != nil && e.fn.Pkg != nil {
+					scopes = append(scopes, e.fn.Pkg.Pkg.Scope())
+				}
+				if e.g.f != nil && e.g.f.Pkg != nil {
+					scopes = append(scopes, e.g.f.Pkg.Pkg.Scope())
+				}
+				for _, sc := range scopes {
+					if obj := sc.Lookup(id.Name); obj != nil {
+						if _, ok := obj.(*types.TypeName); ok {
+							v, err := e.eval(n.Args[0])
+							if err != nil {
+								return SV{}, err
+							}
+							return SV{v.T, types.NewPointer(obj.Type())}, nil
 						}
-						return SV{v.T, types.NewPointer(obj.Type())}, nil
 					}
 				}
 			}
